@@ -86,7 +86,7 @@ def items(ctx):
             # broken member: truncated text / illegal character / unknown parent
             bad = dict(texts)
             victim = names[-1]
-            kind = r.choice(['truncate', 'badchar', 'comment-eof', 'unknown-parent'])
+            kind = r.choice(['truncate', 'badchar', 'comment-eof', 'unknown-parent', 'unknown-type', 'unknown-type'])
             if kind == 'truncate':
                 bad[victim] = bad[victim][:len(bad[victim]) * 2 // 3]
             elif kind == 'badchar':
@@ -94,6 +94,9 @@ def items(ctx):
                 bad[victim] = bad[victim][:k] + ' $ ' + bad[victim][k:]
             elif kind == 'comment-eof':
                 bad[victim] = bad[victim].rstrip() + ' -- ends inside a comment'
+            elif kind == 'unknown-type':
+                # a symbol that stays postponed for ever in the symbol pass (its type is never declared)
+                bad[victim] = re.sub(r'END\s*$', 'ZzPending ::= ZzNoSuchType\nEND\n', texts[victim])
             else:
                 bad[victim] = re.sub(r'END\s*$', 'zzOrphan OBJECT IDENTIFIER ::= { zzNowhere 1 }\nEND\n', texts[victim])
             pool.append(('broken:' + kind, bad, names))
@@ -102,6 +105,11 @@ def items(ctx):
     pool.append(('smiv1-index', {'ACME-V1IDX-MIB': SMIV1_INDEX}, ['ACME-V1IDX-MIB']))
     pool.append(('macro-unterminated', {'ACME-M-MIB': 'ACME-M-MIB DEFINITIONS ::= BEGIN x MACRO ::= BEGIN never ends'}, ['ACME-M-MIB']))
     return pool
+
+
+# per-call options: what a call is given must not depend on what an earlier call was given (omitted = the library default)
+OPTION_SETS = [{'genTexts': True}, {}, {'genTexts': False}, {'genTexts': True, 'textFilter': (lambda symbol, text: text)},
+               {'textFilter': (lambda symbol, text: text)}]
 
 
 class SharedCompiler(object):
@@ -121,11 +129,12 @@ class SharedCompiler(object):
         self.comp.addSources(CallbackReader(lambda n, c: self.cur[n] if n in self.cur else (pipeline.base_text(n) or '')))
         self.comp.addSearchers(StubSearcher(*PySnmpCodeGen.baseMibs))
 
-    def step(self, texts, requested):
+    def step(self, texts, requested, opts=None):
         self.cur = texts
         self.out = {}
+        kw = dict(OPTION_SETS[opts or 0])
         try:
-            res = self.comp.compile(*requested, genTexts=True)
+            res = self.comp.compile(*requested, **kw)
             return {'status': {k: canon_status(v) for k, v in res.items()}, 'texts': {k: mask(v) for k, v in self.out.items()}}
         except BaseException as e:
             return {'raised': '%s: %s' % (type(e).__name__, e)}
@@ -262,10 +271,12 @@ def run(ctx):
     pool = items(ctx)
     # fresh references
     fresh = {}
-    for be in ('json', 'pysnmp'):
-        for idx, (label, texts, req) in enumerate(pool):
-            fresh[(be, idx)] = SharedCompiler(be).step(texts, req)
+
+    def fresh_result(be, idx, opt):
+        if (be, idx, opt) not in fresh:
+            fresh[(be, idx, opt)] = SharedCompiler(be).step(pool[idx][1], pool[idx][2], opt)
             res.count('fresh-compiles')
+        return fresh[(be, idx, opt)]
     # (A)
     n_hist = 12 if ctx.tier == 'quick' else 150
     for h in range(n_hist):
@@ -274,18 +285,21 @@ def run(ctx):
         seq = [rng.randrange(len(pool)) for _ in range(rng.randint(2, 7))]
         if rng.random() < 0.5:
             seq.append(seq[0])
+        # most histories use one option set throughout, the others change options between calls
+        opts = [0] * len(seq) if h % 3 != 2 else [rng.randrange(len(OPTION_SETS)) for _ in seq]
         for pos, idx in enumerate(seq):
             label, texts, req = pool[idx]
-            got = sc.step(texts, req)
-            res.case(('hist', be, tuple(seq[:pos + 1])), pos > 0)
+            got = sc.step(texts, req, opts[pos])
+            res.case(('hist', be, tuple(seq[:pos + 1]), tuple(opts[:pos + 1])), pos > 0)
             res.count('history-steps:' + label.split(':')[0])
-            if got != fresh[(be, idx)]:
-                d = first_diff(fresh[(be, idx)], got)
+            want = fresh_result(be, idx, opts[pos])
+            if got != want:
+                d = first_diff(want, got)
                 res.oracle_failures.append({
                     'key': 'compile-history',
                     'what': 'compile() through shared objects differs from fresh objects at step %d (%s) after %s: %s fresh=%r shared=%r' % (
                         pos, label, [pool[j][0] for j in seq[:pos]], d[0], d[1], d[2]),
-                    'input': {'backend': be, 'history': [{'texts': pool[j][1], 'requested': pool[j][2]} for j in seq[:pos + 1]]}})
+                    'input': {'backend': be, 'history': [{'texts': pool[j][1], 'requested': pool[j][2], 'opts': opts[k]} for k, j in enumerate(seq[:pos + 1])]}})
                 break
     # (B)
     from pysmi.codegen.symtable import SymtableCodeGen
@@ -458,8 +472,8 @@ def replay(payload):
         sc = SharedCompiler(inp['backend'])
         got = None
         for st in inp['history']:
-            got = sc.step(st['texts'], st['requested'])
-        want = SharedCompiler(inp['backend']).step(inp['history'][-1]['texts'], inp['history'][-1]['requested'])
+            got = sc.step(st['texts'], st['requested'], st.get('opts', 0))
+        want = SharedCompiler(inp['backend']).step(inp['history'][-1]['texts'], inp['history'][-1]['requested'], inp['history'][-1].get('opts', 0))
         return {'fails': got != want}
     if key == 'parser-history':
         from pysmi.parser.smi import parserFactory
